@@ -16,6 +16,8 @@ func c40KF(pg *c38PGraph, op *c38Op, text string) []string {
 		"move-into-own-descendant":    "C40-edit-defect-move-into-own-descendant",
 		"move-dest-referenced-inside": "C40-edit-defect-move-destination-referenced-from-inside",
 		"move-mid-edge-key":           "C40-edit-defect-move-object-in-middle-of-edge-key",
+		"move-deltas-same-scope":      "C40-move-same-scope-predicts-hoisting",
+		"move-deltas-sibling-names":   "C40-move-prediction-ignores-hoisted-siblings",
 		"rename-wrong-scope":          "C40-rename-prediction-scope",
 		"edge-to-own-descendant":      "C40-delete-predicts-removed-edge",
 	})
@@ -23,7 +25,7 @@ func c40KF(pg *c38PGraph, op *c38Op, text string) []string {
 
 func c40Gen(r *Rng, tier string, n int) []Case {
 	kinds := []string{"delobj", "delobj", "deledge", "rename", "move", "move", "delobjattr"}
-	var out []Case
+	out := c38Scripted(kinds, c40KF)
 	for _, t := range c38Corpus {
 		for k := 0; k < 3; k++ {
 			out = append(out, c38History(r.Fork(), t, 6, kinds, "corpus", c40KF)...)
